@@ -87,6 +87,28 @@ pub fn digest_object(o: &Map<String, Value>) -> Result<String> {
     }
 }
 
+/// Deepest nesting of arrays and objects the library accepts in an object, a document or the commit
+/// information: everything that is stored is parsed again later, and the JSON parser refuses text
+/// nested deeper than 128 levels (a stored object sits inside its pack's array, the commit
+/// information inside its block)
+pub const MAX_NESTING_DEPTH: usize = 100;
+
+/// Returns true if the value holds arrays or objects nested more than `levels` deep
+/// (never descends further than that, whatever the value)
+fn nested_deeper_than(value: &Value, levels: usize) -> bool {
+    match value {
+        Value::Array(a) => levels == 0 || a.iter().any(|v| nested_deeper_than(v, levels - 1)),
+        Value::Object(o) => levels == 0 || o.values().any(|v| nested_deeper_than(v, levels - 1)),
+        _ => false,
+    }
+}
+
+/// Returns true if the object is nested deeper than the library can store and read back
+pub fn is_too_deep(obj: &Map<String, Value>) -> bool {
+    obj.values()
+        .any(|v| nested_deeper_than(v, MAX_NESTING_DEPTH - 1))
+}
+
 /// Returns the identifier of an object with path
 pub fn generate_identifier(value: &Map<String, Value>, path: &[String]) -> Result<String> {
     if value.contains_key(ID_FIELD) {
